@@ -421,6 +421,10 @@ def _split_expr_over_interface(expr, interface, tests=None, trials=None):
                 mapping = list(mapping)[0]
                 newexpr = newexpr.subs(mapping, mapping.plus)
 
+            # on the plus side the outward normal is reversed (as for bilinear forms)
+            for nn in newexpr.atoms(NormalVector):
+                newexpr = newexpr.replace(nn, -nn)
+
             if not is_zero(newexpr):
                 if interface.plus in bnd_expressions:
                      newexpr += bnd_expressions[interface.plus]
